@@ -16,6 +16,7 @@ import (
 	"github.com/zclconf/go-cty/cty"
 	"github.com/zclconf/go-cty/cty/function"
 	"github.com/zclconf/go-cty/cty/function/stdlib"
+	"pgregory.net/rapid"
 
 	"verifharness/internal/core"
 )
@@ -401,4 +402,84 @@ func (k *keeper) finish(v *core.Violation) *core.Violation {
 		return k.viol
 	}
 	return v
+}
+
+// ---------------------------------------------------------------- the caller's own buffers are the caller's
+
+// What the caller does with the []byte it passed to a parsing entry point once the
+// call has returned (the mirror image of the keeper: there the library's results,
+// here the caller's inputs).
+const (
+	reuseNone  = ""                   // leaves it alone (the buffer is never written again)
+	reuseFill  = "fill-0xAA"          // a pooled buffer handed back and scrubbed
+	reuseOther = "other-source-bytes" // the bytes of a different source, same length
+	reuseNext  = "next-source-parsed" // truncated, the next source read into the same backing array and parsed
+)
+
+var reuseModes = []string{reuseFill, reuseOther, reuseNext}
+
+// genReuse: in about half of the cases the caller reuses its buffers.
+func genReuse(t *rapid.T) string {
+	if !rapid.Bool().Draw(t, "caller-reuses-input-buffer") {
+		return reuseNone
+	}
+	return rapid.SampledFrom(reuseModes).Draw(t, "reuse-mode")
+}
+
+func reuseLabel(mode string) string {
+	if mode == reuseNone {
+		return "input:caller-leaves-buffer-alone"
+	}
+	return "input:caller-reuses-buffer|" + mode
+}
+
+// callerBuf is a []byte which the harness, as the caller, hands to a parsing entry
+// point.  It is the caller's memory: once the call has returned the caller may use it
+// for whatever comes next, and nothing obtained from the call may depend on it
+// (ranges in diagnostics are positions and stay what they were).  The oracles work on
+// the text the buffer was filled from, never on the buffer.
+type callerBuf struct {
+	mode  string
+	b     []byte // what the library is given
+	other string // what the caller has in hand next
+}
+
+const reuseFallbackConfig = "/* reused */ next = [1, \"two\"]\nblk \"l\" {\n  k = v # c\n}\n"
+const reuseFallbackExpr = "[1, \"two\", three.four[5]]"
+
+func newCallerBuf(mode, text, other, fallback string) *callerBuf {
+	if mode == reuseNone {
+		return &callerBuf{b: []byte(text)}
+	}
+	if other == "" || other == text {
+		other = fallback
+	}
+	n := len(text)
+	if mode == reuseNext && len(other) > n {
+		n = len(other)
+	}
+	back := make([]byte, len(text), n)
+	copy(back, text)
+	return &callerBuf{mode: mode, b: back, other: other}
+}
+
+// reuse is the caller using its buffer again; next is what it does with the next
+// source in mode reuseNext (it gets the same backing array, holding the next source).
+func (c *callerBuf) reuse(next func(src []byte)) {
+	switch c.mode {
+	case reuseFill:
+		for i := range c.b {
+			c.b[i] = 0xAA
+		}
+	case reuseOther:
+		for i := range c.b {
+			c.b[i] = c.other[i%len(c.other)]
+		}
+	case reuseNext:
+		nb := append(c.b[:0], c.other...) // capacity was reserved: same backing array
+		if next != nil {
+			next(nb)
+		}
+	}
+	c.mode = reuseNone // once
 }
